@@ -9,10 +9,13 @@ import "context"
 // nothing afterwards.
 func vC01Cat(L int) {
 	op := &vCatalog[vChoice("entry", len(vCatalog))]
-	if op.nsrc != 1 {
+	if op.nsrc > 1 {
 		vAssume(false)
 	}
-	in := vRogueScript("s", L)
+	var in []vStep
+	if op.nsrc == 1 {
+		in = vRogueScript("s", L)
+	}
 	p := &vProbe{name: "src"}
 	mode := vChoice("mode", 3) // 0 cold direct, 1 hot direct, 2 cold via subscriber
 	var src Observable[int64] = p
